@@ -33,7 +33,7 @@ class C07(ServerPlugin):
     rule = ("case = (protocol h1/h2/auto, transport, event list: connects of 0..8 clients (hyper h1 / hyper h2 / h2 with a cut "
             "preface / silent raw), requests advanced stage by stage (cut head, head, body rest, handler release, response "
             "end), the shutdown signal at a scripted position, wind-down of every unfinished request, late connects and "
-            "late requests; the signal resolved from inside the accept loop by the make-service while a burst of connects is "
+            "late requests; the completed serving future dropped at once or kept alive by the caller; the signal resolved from inside the accept loop by the make-service while a burst of connects is "
             "queued; server buffer cap / client buffer sizes as hidden variation) against the real Server::with_graceful_shutdown with logging acceptor / protocol / executor "
             "wrappers; per stretch between quiescent points the multiset of observable events is compared with the model, "
             "and mon_C07 judges the implementation's log; non-trivial = at least one request, fault or cancelled connect; "
@@ -116,6 +116,8 @@ class C07(ServerPlugin):
             else:
                 evs.append(f"{t}{ids[who]}")
         case = {"mode": "g", "proto": proto, "tr": tr, "evs": evs}
+        if tr in ("duplex", "dtls") and rng.random() < 0.2:
+            case["mode"] = "k"      # the caller keeps the completed serving future alive
         if tr in ("duplex", "dtls") and rng.random() < 0.3:
             # variation the model abstracts from: server-side buffer cap, buffer size the clients ask for
             case["cap"] = rng.choice([65536, 4096])
@@ -138,12 +140,20 @@ class C07(ServerPlugin):
                                 evs = [kind, nk] + [f"{t}0" for t in pre] + ["R1", "T1", "T1", "T1"]
                             evs += (["S"] if settled else []) + ["G", "S"] + [f"{t}0" for t in post] + ["R0", "S"]
                             cases.append({"mode": "g", "proto": proto, "tr": "duplex", "evs": evs})
+                            if settled:
+                                # the same with the completed serving future kept alive by the caller: every
+                                # connection must be told and finish exactly as before
+                                cases.append({"mode": "k", "proto": proto, "tr": "duplex", "evs": evs})
         # signal before / after accept, queue of several, cancelled connects in the queue
         for proto, k in (("h1", "C1"), ("h2", "C2"), ("auto", "C1"), ("auto", "C2"), ("auto", "C3")):
             for evs in ([k, "G", "S"], ["S", k, "G", "S"], [k, "S", "G", "S"], [k, k, "X", k, "G", "S"], ["G", k, "S"],
                         ["S", "G", "S", k, "S"], [k, "X", "S", k, "G", k, "S"], ["X", "G", "S"], ["G", "S"], ["S"],
                         [k, "S", "L", "S", "G", "S"], [k, "S", "M", k, "S", "G", "S"]):
                 cases.append({"mode": "g", "proto": proto, "tr": "duplex", "evs": evs})
+                # (a kept future that completed with an error is never polled again and cannot see a later signal:
+                #  keep mode is scripted for completion by the signal only)
+                if "L" not in evs and "M" not in evs:
+                    cases.append({"mode": "k", "proto": proto, "tr": "duplex", "evs": evs})
         # the signal resolves inside the accept loop (the make-service resolves it while admitting the
         # (n+1)-th queued connect): k queued connects, every n; with and without an exchange in flight,
         # a cancelled connect in the burst, the arm placed before / inside the burst, a late outside signal
